@@ -62,6 +62,29 @@ func (in *Interp) noteBound(c *Term) {
 				set(b, 0, a.val, true)
 			}
 		}
+	case OpSlt:
+		// signed comparisons with a non-negative constant
+		a, b := c.args[0], c.args[1]
+		w := a.w
+		if w == 0 || w > 64 {
+			return
+		}
+		half := uint64(1) << (w - 1)
+		nonNeg := func(x *Term) bool { return in.rangeOf(x, 0).hi < half }
+		switch {
+		case a.op != OpConst && b.op == OpConst && b.val < half:
+			if neg { // x >= c >= 0
+				set(a, b.val, half-1, true)
+			} else if nonNeg(a) { // 0 <= x < c
+				set(a, 0, b.val-1, b.val > 0)
+			}
+		case a.op == OpConst && b.op != OpConst && a.val < half:
+			if !neg { // x > c >= 0
+				set(b, a.val+1, half-1, a.val+1 < half)
+			} else if nonNeg(b) { // 0 <= x <= c
+				set(b, 0, a.val, true)
+			}
+		}
 	case OpEq:
 		a, b := c.args[0], c.args[1]
 		if a.op == OpConst {
@@ -257,6 +280,37 @@ func (in *Interp) triState(c *Term, depth int) int {
 func (in *Interp) narrow(t *Term, memo map[int]*Term) *Term {
 	if !t.sym || len(in.rng) == 0 || t.size > 20000 {
 		return t
+	}
+	if len(memo) == 0 {
+		// the simplifier pushes low-order extracts into arithmetic, so that
+		// zext(extract[k-1:0](x)) may no longer show x: map the pushed forms of the
+		// bounded 64-bit sub-terms back to them
+		in.narrowBack = map[int]*Term{}
+		seen := map[int]bool{}
+		var walk func(u *Term)
+		walk = func(u *Term) {
+			if seen[u.id] || !u.sym || len(seen) > 4000 {
+				return
+			}
+			seen[u.id] = true
+			if u.w == 64 && u.op != OpVar && u.op != OpZExt {
+				hi := in.rangeOf(u, 0).hi
+				for _, k := range []int{8, 16, 32} {
+					if hi < uint64(1)<<uint(k) {
+						in.narrowBack[ZExt(Extract(u, k-1, 0), 64).id] = u
+						break
+					}
+				}
+			}
+			for _, a := range u.args {
+				walk(a)
+			}
+		}
+		walk(t)
+		memo[-1] = t // marks the pre-pass as done
+	}
+	if r, ok := in.narrowBack[t.id]; ok && r != t {
+		return r
 	}
 	if r, ok := memo[t.id]; ok {
 		return r
